@@ -30,7 +30,7 @@ Lemma bind_ok {A B} (m : res A) (f : A -> res B) b :
   bind m f = Ok b -> exists a, m = Ok a /\ f a = Ok b.
 Proof. destruct m; simpl; intros H; [eauto|discriminate]. Qed.
 
-Lemma guard_ok b e : guard b e = Ok tt -> b = true.
+Lemma guard_ok b e u : guard b e = Ok u -> b = true.
 Proof. destruct b; simpl; congruence. Qed.
 
 Lemma guard_true e : guard true e = Ok tt. Proof. reflexivity. Qed.
@@ -55,3 +55,12 @@ Definition zrange (n : Z) : list Z := map Z.of_nat (seq 0 (Z.to_nat n)).
 (* same list as [zrange n], built without unary naturals (for 2^16-element sweeps) *)
 Definition zupto (n : Z) : list Z :=
   fst (Z.iter n (fun p => let z := Z.pred (snd p) in (z :: fst p, z)) ([], n)).
+
+(* bounded while loop for translated [while] statements; exhausting the fuel is an error value *)
+Fixpoint mwhile {S} (fuel : nat) (cond : S -> res bool) (body : S -> res S) (s : S) : res S :=
+  match fuel with
+  | O => Err "OutOfFuel"%string
+  | Datatypes.S f =>
+    c <- cond s ;;
+    if c then (s' <- body s ;; mwhile f cond body s') else Ok s
+  end.
